@@ -707,6 +707,10 @@ def run(ctx):
                 if len(grp) > 1:
                     checks += [{'base': grp[-1]['base'], 'text': grp[-1]['text'], 'modes': [m],
                                 'strict': '%s-0' % m} for m in MODES]
+            uniq = {}
+            for c in checks:            # a batch may end in a base text: one job per file
+                uniq.setdefault(job_file(c), c)
+            checks[:] = list(uniq.values())
             extra = checks + base_jobs
             n_oracles += len(checks) - 2 * len(model.BASES)
         n_oracles += len(jobs)
@@ -888,8 +892,8 @@ def _verdicts(ctx, mism, vs):
             continue
         case = {'mode': m['mode'], 'base': m['base'], 'events': m['events'], 'step': m['step'],
                 'key': m['key']}
-        if not _reproduces_alone(case, m['site']):
-            case['pre_task'] = _pre_of(m)
+        if vs['reported'].get(m['site']) or not _reproduces_alone(case, m['site']):
+            case['pre_task'] = _pre_of(m)       # shrinking is tried for the first of a site
         vs['reported'][m['site']] = vs['reported'].get(m['site'], 0) + 1
         ctx.violation(m['site'], input_id,
                       {'history': hid, 'step': m['step'], 'query': m['key'], 'text': state[0],
